@@ -221,12 +221,15 @@ func main() {
 					bgmain.Used <- bondgo.UsageNotify{bondgo.TR_PROC, procid, bondgo.C_ROMSIZE, bondgo.S_NIL, linesn}
 				}
 
-				bgmain.Used <- bondgo.UsageNotify{bondgo.TR_EXIT, 0, 0, bondgo.S_NIL, bondgo.I_NIL}
-				<-usagedone
-
+				// Stop the variable allocator first: it notifies the usage monitor after every answer, so the
+				// monitor has to stay alive until the allocator is done (otherwise a pending notification
+				// is lost or blocks the allocator forever)
 				gent, _ := bondgo.Type_from_string(bgmain.Basic_type)
 				bgmain.Reqs <- bondgo.VarReq{bondgo.REQ_EXIT, 0, bondgo.VarCell{gent, 0, 0, 0, 0, 0, 0, 0}}
 				<-assignerdone
+
+				bgmain.Used <- bondgo.UsageNotify{bondgo.TR_EXIT, 0, 0, bondgo.S_NIL, bondgo.I_NIL}
+				<-usagedone
 			}
 
 			fmt.Print(bgmain.Dump_log())
